@@ -278,15 +278,16 @@ class IsBig(Predicate):
         return self.obj.size > self.limit
 
 
-def outcome_of_the(dom, cond, cls=Item, inside=None):
+def outcome_of_the(dom, cond, cls=Item, inside=None, setof=False):
     """('value', id) | ('none',) | ('multiple',) | ('error', repr)"""
     with symbolic_mode():
         x = let(type_=cls, domain=dom)
-        q = the(entity(x, build(cond, [x])))
+        q = the(set_of([x], build(cond, [x]))) if setof else the(entity(x, build(cond, [x])))
 
     def ev():
         try:
-            return ('value', id(q.evaluate()))
+            r = q.evaluate()
+            return ('value', id(r[x] if setof else r))
         except MultipleSolutionFound:
             return ('multiple',)
         except NoSolutionFound:
